@@ -261,6 +261,12 @@ def run(ctx):
         q.write_bytes(data); tfiles.append((q, data))
     tnames = tuple(ALGOS[(3 * j + ctx.seed) % len(ALGOS)] for j in range(3))
     tres, terr = {}, []
+    # (earlier calls of this process failed — a missing file, a directory — and the caller caught the error)
+    for bad in (tdir / "missing.bin", tdir, tdir / "missing2.bin"):
+        try:
+            hash_checksums(file_path=bad, hashes=tnames)
+        except OSError:
+            pass
     start = threading.Barrier(len(tfiles))
     def worker(k):
         try:
